@@ -50,6 +50,7 @@ pub fn run(a: &Args) -> i32 {
     let env = Env { a, data, tsv, scratch };
     let rep = match a.stream.as_str() {
         "probe" => { probe(&env); return 0; }
+        "replay" => { replay(&env); return 0; }
         "c01" => c01::run(&env),
         "c03" => c03::run(&env),
         "c05" => c05::run(&env),
@@ -73,6 +74,43 @@ pub fn run(a: &Args) -> i32 {
     let _ = std::fs::remove_dir_all(&env.scratch);
     println!("stream={} evaluations={} distinct_nontrivial={} violations={}", rep.stream, rep.evaluations, rep.nontrivial.len(), rep.violations.len());
     0
+}
+
+/// riti-harness replay <replay.json> — runs the `events` (and `fresh_events`) of a replay file written by a check against the
+/// real library in a new context (layout / opts from the file, empty user directory) and prints every observation
+fn replay(env: &Env) {
+    let path = env.a.extra.get(0).expect("replay file");
+    let v: serde_json::Value = serde_json::from_str(&std::fs::read_to_string(path).expect("readable replay file")).expect("JSON");
+    let r = if v.get("replay").map(|x| x.is_object()).unwrap_or(false) { v["replay"].clone() } else { v.clone() };
+    let layout = r["layout"].as_str().unwrap_or(PHONETIC).to_string();
+    let bits = r["opts"].as_str().unwrap_or("00000000000");
+    let opts = Opts::from_bits(bits.chars().enumerate().fold(0u32, |acc, (i, c)| if c == '1' { acc | 1 << i } else { acc }));
+    if opts.bits_str() != bits { println!("(note: option bits {} re-encoded as {})", bits, opts.bits_str()); }
+    for which in ["events", "fresh_events"] {
+        let evs = match r[which].as_array() { Some(a) => a.clone(), None => continue };
+        println!("== {} in a new context: layout {} opts {}", which, layout, opts.bits_str());
+        let xdg = env.fresh_xdg(&format!("replay-{}", which));
+        let mut t = Trace::create(&env.a.out.join(format!("replay.{}.trace", which)), &env.tsv);
+        if layout != PHONETIC { t.layout(&layout, &env.tsv); }
+        let mut s = match Sess::new(&mut t, &env.data, "r", &layout, opts, &xdg) { Some(s) => s, None => { println!("new: PANIC"); continue; } };
+        for e in evs {
+            let e = e.as_str().unwrap_or("").to_string();
+            let f: Vec<&str> = e.split(' ').collect();
+            let n = |i: usize| f.get(i).and_then(|x| x.parse::<u32>().ok()).unwrap_or(0);
+            let o = match f[0] {
+                "key" => s.key(&mut t, n(1) as u16, n(2) as u8, n(3) as u8),
+                "bs" | "backspace" => s.backspace(&mut t, n(1) == 1),
+                "commit" => s.commit(&mut t, n(1) as usize),
+                "finish" => s.finish(&mut t),
+                "update" => { let l = f.get(1).map(|x| x.to_string()).unwrap_or(layout.clone()); let b = f.get(2).copied().unwrap_or(bits);
+                              let o2 = Opts::from_bits(b.chars().enumerate().fold(0u32, |acc, (i, c)| if c == '1' { acc | 1 << i } else { acc })); s.update(&mut t, &l, o2) }
+                _ => { println!("{:<24} (not an event this mode can replay)", e); continue; }
+            };
+            let on = if o == Obs::Panic { false } else { s.imp.ongoing() };
+            println!("{:<24} {}", e, render_obs(&o, on));
+        }
+        t.flush();
+    }
 }
 
 /// ad-hoc: riti-harness probe <layout|phonetic> <bits11> <text> — types text, prints observations
